@@ -53,6 +53,8 @@ def _strategy():
         "persistent": st.booleans(),
         # the application keeps ONE lamp dict and ONE trouble-code list and updates them in place before every cycle
         "in_place": st.sampled_from([False, False, True]),
+        # the first receiver's Dm1 object has one more subscriber, registered first, that unsubscribes itself at its first call
+        "oneshot_first": st.sampled_from([False, False, True]),
         "sa": st.sampled_from([0x28, 0x28, 0x00, 0x01, 0xCA, 0xFD]),
         "lat": st.lists(st.sampled_from([1e-6, 0.0002, 0.001, 0.005]), min_size=1, max_size=2),
         "eps": st.lists(st.sampled_from([0.0, 1e-5, 1e-3]), min_size=1, max_size=2),
@@ -187,6 +189,10 @@ class C16:
                 rca = r.add_ca("r", 0x20 + i, 0x50 + i)
                 rd = j.Dm1(rca)
                 got.append([])
+                if i == 0 and p.get("oneshot_first"):
+                    def once(sa, lamps, dtcs, ts, rd=rd):
+                        rd.unsubscribe(once)
+                    rd.subscribe(once)
                 rd.subscribe((lambda i=i: (lambda sa, lamps, dtcs, ts: got[i].append((w.sim.now, sa, dict(lamps), [dict(d) for d in dtcs]))))())
             supplied = []
             idx = [0]
